@@ -297,6 +297,85 @@ theorem wrappingMul_value (a b : I256) (ha : a.WF) (hb : b.WF) :
   generalize (alo : Int) * bhi = S at *
   omega
 
+/-! ## §2 native widths -/
+
+def stdWidths : List Nat := [8, 16, 32, 64, 128]
+
+theorem wrap_spec (t : NT) (ht : t.bits ∈ stdWidths) (x : Int) :
+    t.inRange (t.wrap x) = true ∧ (t.wrap x - x) % (2 ^ t.bits : Int) = 0 ∧ (t.inRange x = true → t.wrap x = x) := by
+  obtain ⟨s, bits⟩ := t
+  simp only [stdWidths, List.mem_cons, List.not_mem_nil, or_false] at ht
+  rcases ht with h | h | h | h | h <;> subst h <;> cases s <;>
+    simp only [NT.inRange, NT.wrap, NT.lo, NT.hi, Bool.false_eq_true, ↓reduceIte, Bool.and_eq_true, decide_eq_true_eq] <;> omega
+
+theorem tdiv_natAbs_le (a b : Int) : (Int.tdiv a b).natAbs ≤ a.natAbs := by
+  rw [Int.natAbs_tdiv]; exact Nat.div_le_self _ _
+
+theorem tdiv_natAbs_half (a b : Int) (hb : 2 ≤ b.natAbs) : (Int.tdiv a b).natAbs ≤ a.natAbs / 2 := by
+  rw [Int.natAbs_tdiv]; exact Nat.div_le_div_left hb (by omega)
+
+theorem tdiv_nonneg' (a b : Int) (ha : 0 ≤ a) (hb : 0 ≤ b) : 0 ≤ Int.tdiv a b := Int.tdiv_nonneg ha hb
+
+theorem tdiv_inRange (t : NT) (ht : t.bits ∈ stdWidths) (a b : Int) (ha : t.inRange a = true) (hb : t.inRange b = true)
+    (hb0 : b ≠ 0) : t.inRange (Int.tdiv a b) = true ↔ ¬ (t.signed = true ∧ a = t.lo ∧ b = -1) := by
+  obtain ⟨s, bits⟩ := t
+  have h1 := tdiv_natAbs_le a b
+  simp only [stdWidths, List.mem_cons, List.not_mem_nil, or_false] at ht
+  by_cases hm1 : b = -1
+  · subst hm1
+    have e : Int.tdiv a (-1) = -a := by rw [Int.tdiv_neg, Int.tdiv_one]
+    rw [e]
+    rcases ht with h | h | h | h | h <;> subst h <;> cases s <;>
+      simp only [NT.inRange, NT.lo, NT.hi, Bool.false_eq_true, ↓reduceIte, Bool.and_eq_true, decide_eq_true_eq, true_and, and_true, false_and, not_false_eq_true, iff_true, Nat.reduceSub] at * <;> first | omega | (constructor <;> intros <;> omega)
+  · by_cases h1' : b = 1
+    · subst h1'
+      rw [Int.tdiv_one]
+      rcases ht with h | h | h | h | h <;> subst h <;> cases s <;>
+        simp only [NT.inRange, NT.lo, NT.hi, Bool.false_eq_true, ↓reduceIte, Bool.and_eq_true, decide_eq_true_eq, true_and, and_true, false_and, not_false_eq_true, iff_true, Nat.reduceSub] at * <;> first | omega | (constructor <;> intros <;> omega)
+    · have h2 := tdiv_natAbs_half a b (by omega)
+      cases s
+      · have h3 : 0 ≤ Int.tdiv a b := by
+          apply Int.tdiv_nonneg
+          · simp only [NT.inRange, NT.lo, Bool.false_eq_true, ↓reduceIte, Bool.and_eq_true, decide_eq_true_eq] at ha; omega
+          · simp only [NT.inRange, NT.lo, Bool.false_eq_true, ↓reduceIte, Bool.and_eq_true, decide_eq_true_eq] at hb; omega
+        rcases ht with h | h | h | h | h <;> subst h <;>
+          simp only [NT.inRange, NT.lo, NT.hi, Bool.false_eq_true, ↓reduceIte, Bool.and_eq_true, decide_eq_true_eq, true_and, and_true, false_and, not_false_eq_true, iff_true, Nat.reduceSub] at * <;> first | omega | (constructor <;> intros <;> omega)
+      · rcases ht with h | h | h | h | h <;> subst h <;>
+          simp only [NT.inRange, NT.lo, NT.hi, ↓reduceIte, Bool.and_eq_true, decide_eq_true_eq, true_and, and_true, Nat.reduceSub] at * <;> first | omega | (constructor <;> intros <;> omega)
+
+theorem divChecked_spec (t : NT) (ht : t.bits ∈ stdWidths) (a b : Int) (ha : t.inRange a = true) (hb : t.inRange b = true) :
+    divChecked t a b =
+      if b = 0 then .error .divzero
+      else if t.signed = true ∧ a = t.lo ∧ b = -1 then .error .overflow
+      else .ok (Int.tdiv a b) := by
+  simp only [divChecked]
+  by_cases hb0 : b = 0
+  · simp [hb0]
+  · have h := tdiv_inRange t ht a b ha hb hb0
+    simp only [hb0, ↓reduceIte, stdCheckedDiv, stdChecked]
+    by_cases hc : t.signed = true ∧ a = t.lo ∧ b = -1
+    · have : t.inRange (Int.tdiv a b) = false := by
+        cases hh : t.inRange (Int.tdiv a b)
+        · rfl
+        · exact absurd hc (h.1 hh)
+      rw [if_pos hc]
+      simp only [this, Bool.false_eq_true, ↓reduceIte, optOr]
+    · have : t.inRange (Int.tdiv a b) = true := h.2 hc
+      rw [if_neg hc]
+      simp only [this, ↓reduceIte, optOr]
+
+/-- the checked add/sub/mul/neg glue is the specification `checkedSpec` (exact or overflow) -/
+theorem addChecked_spec (t : NT) (a b : Int) : addChecked t a b = checkedSpec t .add a b := by
+  simp only [addChecked, stdChecked, checkedSpec, exactOp]; split <;> simp [optOr]
+theorem subChecked_spec (t : NT) (a b : Int) : subChecked t a b = checkedSpec t .sub a b := by
+  simp only [subChecked, stdChecked, checkedSpec, exactOp]; split <;> simp [optOr]
+theorem mulChecked_spec (t : NT) (a b : Int) : mulChecked t a b = checkedSpec t .mul a b := by
+  simp only [mulChecked, stdChecked, checkedSpec, exactOp]; split <;> simp [optOr]
+theorem divChecked_eq_spec (t : NT) (a b : Int) : divChecked t a b = checkedSpec t .div a b := by
+  simp only [divChecked, stdCheckedDiv, stdChecked, checkedSpec, exactOp]
+  by_cases hb : b = 0 <;> simp only [hb, ↓reduceIte] <;> split <;> simp [optOr]
+
+
 /-! ## §3 arity.rs loops -/
 
 
